@@ -98,12 +98,25 @@ pub fn rd_vec<T: Flat + Sized, L: Flat + vec::Length>(v: &FlatVec<T, L>, f: impl
 // ---------------------------------------------------------------------------------------------
 // generic builder ops on containers
 
+thread_local! {
+    static REFUSED: core::cell::Cell<bool> = const { core::cell::Cell::new(false) };
+}
+/// A builder operation returned Err (the value may legitimately be in any state afterwards).
+pub fn note_refused() {
+    REFUSED.with(|r| r.set(true));
+}
+pub fn take_refused() -> bool {
+    REFUSED.with(|r| r.replace(false))
+}
+
 pub fn tweak_vec<T: Flat + Sized, L: Flat + vec::Length>(v: &mut FlatVec<T, L>, g: &mut Gen, mut mk: impl FnMut(&mut Gen) -> T) {
     let n = g.pick(3) as usize;
     for _ in 0..n {
         match g.weighted(&[4, 2, 1, 1, 2]) {
             0 => {
-                let _ = v.push(mk(g));
+                if v.push(mk(g)).is_err() {
+                    note_refused();
+                }
             }
             1 => {
                 let _ = v.pop();
@@ -126,10 +139,14 @@ pub fn tweak_vec<T: Flat + Sized, L: Flat + vec::Length>(v: &mut FlatVec<T, L>, 
 pub fn tweak_str<L: Flat + string::Length>(s: &mut FlatString<L>, g: &mut Gen) {
     match g.weighted(&[3, 2, 1]) {
         0 => {
-            let _ = s.push_str(&g.string(3));
+            if s.push_str(&g.string(3)).is_err() {
+                note_refused();
+            }
         }
         1 => {
-            let _ = s.push('ж');
+            if s.push('ж').is_err() {
+                note_refused();
+            }
         }
         _ => s.clear(),
     }
@@ -146,11 +163,13 @@ pub fn tweak_flex<T: ZooMsg + ?Sized, L: Flat + vec::Length>(v: &mut FlexVec<T, 
             0 => {
                 let item = T::gen(&mut Gen::new(g.d, g.st, 2));
                 if v.push(emp::<T>(&item)).is_err() {
+                    note_refused();
                     return;
                 }
             }
             1 => {
                 if v.push_default().is_err() {
+                    note_refused();
                     return;
                 }
             }
@@ -163,8 +182,14 @@ pub fn tweak_flex<T: ZooMsg + ?Sized, L: Flat + vec::Length>(v: &mut FlexVec<T, 
             }
             4 => v.clear(),
             _ => {
-                if let Some(x) = v.iter_mut().last() {
-                    x.tweak(g);
+                // any item: a non-last item lives in a slot of fixed extent and may shrink or
+                // grow inside it
+                let n = v.iter().count() as u32;
+                if n > 0 {
+                    let i = if g.chance(1, 2) { n - 1 } else { g.pick(n) } as usize;
+                    if let Some(x) = v.iter_mut().nth(i) {
+                        x.tweak(g);
+                    }
                 }
             }
         }
